@@ -469,6 +469,43 @@ func (w *rworld) exec(op ROp) (tok, out string) {
 	return tok, out
 }
 
+// terminalOracle compares two dumps of the router stage (orders / certificates / authorizations /
+// challenges / …): an object that was valid or invalid keeps its status, ready does not go back to
+// pending, and no status outside pending / ready / valid / invalid is ever stored
+func terminalOracle(prev, cur string) string {
+	pf, cf := strings.Split(prev, "/"), strings.Split(cur, "/")
+	if len(pf) < 4 || len(cf) < 4 {
+		return ""
+	}
+	letters := func(x string) string { // one letter per object: drop key numbers, fold the fingerprint marking
+		var b strings.Builder
+		for _, r := range x {
+			if r < '0' || r > '9' {
+				b.WriteRune(r)
+			}
+		}
+		return strings.ToLower(b.String())
+	}
+	for k, name := range []string{"order", "", "authz", "challenge"} {
+		if k == 1 {
+			continue
+		}
+		p, c := letters(pf[k]), letters(cf[k])
+		if strings.Contains(c, "?") {
+			return "VIOL:unknown-status-" + name
+		}
+		for i := 0; i < len(p) && i < len(c); i++ {
+			if (p[i] == 'v' || p[i] == 'i') && c[i] != p[i] {
+				return "VIOL:terminal-" + name
+			}
+			if p[i] == 'r' && c[i] == 'p' {
+				return "VIOL:backward-" + name
+			}
+		}
+	}
+	return ""
+}
+
 // noteProved: the proof was in place when the response was sent and the server stored the challenge valid
 func (w *rworld) noteProved(op ROp) {
 	if op.How != "ok" || op.Obj < 0 || op.Obj >= len(w.chals) {
@@ -544,7 +581,12 @@ func runRouter(e *acmeenv.Env, k *RCase) (line, out string) {
 				dead, before = true, w.dump()
 			}
 		}
+		prevDump := w.dump()
 		t, o := w.exec(op)
+		// terminal statuses are absorbing, statuses are the four of the state machine (as in stage histories)
+		if v := terminalOracle(prevDump, w.dump()); v != "" {
+			o += "/" + v
+		}
 		if dead && (!strings.HasPrefix(o, "unauth/") || strings.TrimPrefix(o, "unauth/") != before) {
 			o += "/VIOL:deactivated-account-served"
 		}
